@@ -21,6 +21,25 @@ algorithms 5 / 8 / 10 and every placement:
     3 / 65537 / 2^32+1.
 The oracle for all of them is dnspython, as for every other key.
 
+EXPONENT-LENGTH BOUNDARIES (every run, both tiers; variant "exponent-length", and mixed into the random cases).  RFC 3110
+section 2 writes the exponent length in ONE octet for 1..255 and as 0 + two octets only above 255.  Public-only token
+keys (the exporter reads public attributes only) with odd public exponents of 1, 2, 3, 4, 5, 127, 128, 254, 255, 256, 257
+octets (leading octet 0x01 / 0x80 / 0xFF / random non-zero, and the values 2^(8k)-1 / 2^(8k)+1 on both sides of the
+255 | 256 boundary), moduli of 1024 / 2048 / 4096 bits (e < n), algorithms 5 / 8 / 10, every exporting placement.  The
+oracle is dnspython's make_ds over a key field built here from the two INTEGERS by a transcription of RFC 3110
+(`rfc3110_field`), cross-checked against harness/keys.py's.  Even exponent lengths also give RDATA of odd length (the
+last octet is a high-order octet in RFC 4034 App. B).
+
+ENVIRONMENT INDEPENDENCE (every run, both tiers; `"tz": <zone>` in the case).  The document is a function of the
+configuration and the token, not of the time zone of the process: a deterministic block of cases whose validFrom /
+validUntil run through harness/tzenv.lattice() (January / July, turn of the year, +-1 h around the DST switches of every
+zone), written with offsets +00:00, Z, +02:00, -05:00, +05:30, +10:30 (e.g. `2010-07-15T02:00:00+02:00`), several with
+EQUAL and with ADJACENT instants written differently (the sort by validFrom is on instants), plus the first ordinary
+random cases, runs under UTC and again with the process zone switched (lib.ProcessTZ) to America/New_York,
+Australia/Lord_Howe, Asia/Kolkata and Europe/Berlin: same oracle, same model, and the document must equal the UTC run's
+octet for octet.  Validity configured WITHOUT a designator (`2010-07-15T00:00:00`, `2010-07-15`: what YAML gives for
+such a scalar) is a recorded boundary: see NAIVE_VALIDITY below.
+
 The REAL `kskm.tools.trustanchor.trustanchor(logger, args, config)` runs against the token emulator.  The written
 document is parsed with xml.etree.ElementTree.
 
@@ -40,6 +59,7 @@ import contextlib
 import io
 import json
 import logging
+import os
 import re
 import xml.etree.ElementTree as ET
 from argparse import Namespace
@@ -52,6 +72,7 @@ import ceremony as C
 import keys as K
 import lib
 import p11emu
+import tzenv
 from lib import Result
 
 DRIVER = "kskm_driver_pkgi"
@@ -59,6 +80,8 @@ ASSUMPTIONS = [
     "the token emulator stands in for a PKCS#11 device",
     "dnspython's make_ds / key tag are the independent RFC 4034 / 4509 reference",
     "the file write (open/write) is an effect the model reports and does not interpret",
+    "the process time zone is switched with TZ + tzset (lib.ProcessTZ, which verifies that localtime follows); zones and DST switch instants from the system tz database, cross-checked against the published 2025 rules in harness/tzenv.py; cases without \"tz\" run under UTC (set explicitly)",
+    "a configured validity without UTC designator is read as UTC by the oracle and the model (the repository's documented reading of its own timestamps); what the exporter does with it under other process zones is recorded as boundary naive-validity",
 ]
 TRUSTED = ["harness/p11emu.py token emulator", "dnspython (independent DS / key tag)", "xml.etree.ElementTree (standard XML parser)"]
 
@@ -82,6 +105,20 @@ VALID_UNTIL = [None, None, "2030-01-01T00:00:00+00:00", "2019-01-11T00:00:00+00:
 IDS = ["ta-1", "380DC50D-484E-40D0-A3AE-68F2B18F61C7", "id with spaces", "ünï", "a'b", "x>y"]
 BOUNDARY_IDS = ['a"b', "a<b", "a&b", 'q" other="1']
 
+
+# A validity configured without a UTC designator reaches the exporter as a NAIVE datetime (pydantic / YAML keep it naive);
+# `KeyDigest.format_datetime` then calls `astimezone(timezone.utc)` on it, which reads a naive value as LOCAL time of the
+# process.  Under UTC the document says what the configuration says; elsewhere it is shifted by the zone offset.  The
+# cases are run and recorded (counters boundary:naive-validity:*, notes with the input); they are judged as violations
+# only when this switch is on (C18_JUDGE_NAIVE_VALIDITY=1 in the environment; decision of the lead: repair in /repo —
+# proposed_fixes/naive_validity_is_utc.diff — or known finding; afterwards make it the default).
+JUDGE_NAIVE_VALIDITY = os.environ.get("C18_JUDGE_NAIVE_VALIDITY", "0") == "1"
+WHAT_NAIVE = "validFrom / validUntil of a validity configured without a UTC designator depend on the time zone of the process"
+WHAT_TZ = "the exported trust anchor depends on the time zone of the process (same configuration and token, run under UTC and under the zone)"
+
+ZONES = {z[0]: z for z in lib.TZ_ZONES}
+OFFSET_FORMS = [0, "Z", 120, -300, 330, 630]  # minutes east of UTC; "Z" = the Z designator
+EXP_LENGTHS = [1, 2, 3, 4, 5, 127, 128, 254, 255, 256, 257]
 
 _PUB: dict[str, K.TestKey] = {}
 
@@ -124,6 +161,40 @@ def crafted_ref(r: Any, alg: int, n_len: int, e: int, *, fold: int | None = None
     return ["pub", e, hex(K.craft_modulus_with_acc(pred, 257, alg, r, n_len, e))]
 
 
+def exponent_of_length(r: Any, octets: int, lead: int | None = None) -> int:
+    """An odd public exponent of exactly `octets` octets (leading octet `lead`, non-zero; e > 1)."""
+    b = bytearray(r.randbytes(octets))
+    b[0] = lead if lead is not None else r.randrange(1, 256)
+    b[-1] |= 1
+    e = int.from_bytes(bytes(b), "big")
+    return 3 if e == 1 else e
+
+
+def exponent_ref(r: Any, octets: int, n_len: int | None = None, e: int | None = None, lead: int | None = None) -> list[Any]:
+    """Public-only key with an exponent of `octets` octets and a random odd modulus (top bit set) longer than the exponent."""
+    e = exponent_of_length(r, octets, lead) if e is None else e
+    if n_len is None:
+        n_len = r.choice([x for x in (128, 256, 512) if x > octets])
+    while True:
+        n = bytearray(r.randbytes(n_len))
+        n[0] |= 0x80
+        n[-1] |= 1
+        ni = int.from_bytes(bytes(n), "big")
+        if ni > e:
+            return ["pub", e, hex(ni)]
+
+
+def rfc3110_field(e: int, n: int) -> bytes:
+    """RFC 3110 section 2, transcribed from the two integers: "exponent length: 1 or 3 octets; exponent; modulus.  The
+    length in octets of the public exponent is represented as one octet if it is in the range of 1 to 255 and by a zero
+    octet followed by a two octet unsigned length if it is longer than 255 bytes."  Leading zero octets are prohibited."""
+    el = (e.bit_length() + 7) // 8
+    nl = (n.bit_length() + 7) // 8
+    assert 1 <= el <= 65535
+    head = bytes([el]) if 1 <= el <= 255 else bytes([0, el >> 8, el & 0xFF])
+    return head + e.to_bytes(el, "big") + n.to_bytes(nl, "big")
+
+
 def key_class(ref: list[Any]) -> str:
     if ref[0] == "rsa":
         return f"rsa{ref[1]}"
@@ -132,6 +203,11 @@ def key_class(ref: list[Any]) -> str:
     if ref[0] == "pub":
         return "crafted-public"
     return ref[1]
+
+
+def exponent_octets(ref: list[Any]) -> int | None:
+    tk = key_of(ref)
+    return (tk.e.bit_length() + 7) // 8 if tk.kind == "rsa" else None
 
 
 def tag_shape(ref: list[Any], alg: int) -> list[str]:
@@ -157,6 +233,10 @@ def pick_key(r: Any, used: set[str]) -> tuple[list[Any], int]:
             curve = r.choice(["P-256", "P-384"])
             ref = ["ec", curve, r.randrange(len(K.ec_keys(curve)))]
             alg = 13 if curve == "P-256" else 14
+        elif r.random() < 0.05:
+            # exponent-length boundary keys among the ordinary ones (module docstring)
+            alg = r.choice([8, 8, 8, 10, 5])
+            ref = exponent_ref(r, r.choice(EXP_LENGTHS))
         elif r.random() < 0.12:
             # key-tag boundary keys among the ordinary ones (module docstring)
             alg = r.choice([8, 8, 8, 10, 5])
@@ -247,6 +327,115 @@ def keytag_boundary_cases(r: Any) -> list[dict[str, Any]]:
                 n += 1
             for low in LOW_WORDS:
                 out.append(case_with([entry(0, crafted_ref(r, alg, n_len, e, low=low), alg, "present")], 0))
+    return out
+
+
+def exponent_length_cases(r: Any) -> list[dict[str, Any]]:
+    """Deterministic block (same in both tiers): one configured KSK (public-only material) per exponent length x leading
+    octet x algorithm, in every exporting placement, next to 0..2 ordinary KSKs; the exact values around 255 | 256 octets."""
+    out = []
+    present = ["present", "public_only", "second_slot", "second_module", "present"]
+    n = 0
+
+    def case_with(ref: list[Any], alg: int) -> dict[str, Any]:
+        nonlocal n
+        c = gen_case(r, n % 3)
+        c["ksks"] = [k for k in c["ksks"] if k["key"][0] in ("rsa", "ec")]
+        e = {"name": "e0", "label": f"E{exponent_octets(ref)}_{n}", "key": ref, "alg": alg, "valid_from": r.choice(VALID_FROM), "valid_until": r.choice(VALID_UNTIL), "place": present[n % len(present)], "wrapped": True}
+        c["ksks"].insert(r.randrange(len(c["ksks"]) + 1), e)
+        c["variant"] = "exponent-length"
+        n += 1
+        return c
+
+    for octets in EXP_LENGTHS:
+        for lead in (0x01, 0x80, 0xFF, None):
+            for alg in (8, 10, 5) if lead in (0x01, None) else (8,):
+                out.append(case_with(exponent_ref(r, octets, lead=lead), alg))
+    # the values on both sides of the one-octet / three-octet length forms, and of the nearest octet counts
+    for k in (253, 254, 255, 256):
+        for e in ((1 << (8 * k)) - 1, (1 << (8 * k)) + 1):
+            out.append(case_with(exponent_ref(r, (e.bit_length() + 7) // 8, n_len=512, e=e), 8))
+    # several such keys in one document
+    c = gen_case(r, 0)
+    c["ksks"] = [{"name": f"e{i}", "label": f"E{octets}_all", "key": exponent_ref(r, octets), "alg": 8, "valid_from": VALID_FROM[i % len(VALID_FROM)], "valid_until": None, "place": "present", "wrapped": True} for i, octets in enumerate((254, 255, 256, 257))]
+    c["variant"] = "exponent-length"
+    out.append(c)
+    return out
+
+
+def stamp(s: int, form: Any) -> str:
+    """Instant `s` (seconds since the epoch) as a configuration scalar: form "Z", "naive", "date" or minutes east of UTC."""
+    if form == "Z":
+        return tzenv.iso_utc(s, "Z")
+    if form == "naive":
+        return tzenv.iso_utc(s)
+    if form == "date":
+        return tzenv.iso_utc(s)[:10]
+    return tzenv.iso_offset(s, form)
+
+
+def validity_lattice_cases(r: Any) -> list[dict[str, Any]]:
+    """Deterministic block: 2..4 configured RSA / EC KSKs whose validFrom (and validUntil) run through tzenv.lattice(),
+    each written with another UTC offset; neighbours in the lattice land in one document, so the sort by validFrom has
+    to order instants that are 1 s / 30 min / 1 h apart and written in different offsets; one document per chunk repeats
+    an instant in two notations (equal validFrom)."""
+    lat = tzenv.lattice()
+    out = []
+    used: set[str] = set()
+    for start in range(0, len(lat), 3):
+        chunk = lat[start : start + 4]  # overlapping by one: every adjacent pair shares a document
+        c = gen_case(r, 0)
+        ksks = []
+        for i, (label, s) in enumerate(chunk):
+            ref, alg = pick_key(r, used)
+            while ref[0] not in ("rsa", "ec"):
+                ref, alg = pick_key(r, used)
+            form = OFFSET_FORMS[(start + i) % len(OFFSET_FORMS)]
+            until = None if (start + i) % 3 == 0 else stamp(s + (86400 * 365 if i % 2 else 1800), OFFSET_FORMS[(start + i + 2) % len(OFFSET_FORMS)])
+            ksks.append({"name": f"k{i}", "label": f"K{'abcd'[i]}_{i}", "key": ref, "alg": alg, "valid_from": stamp(s, form), "valid_until": until, "place": ["present", "public_only", "second_slot", "second_module"][(start + i) % 4], "wrapped": True})
+        if start % 2 == 0 and len(ksks) >= 2:
+            # the first instant once more in another notation
+            ksks[-1]["valid_from"] = stamp(chunk[0][1], OFFSET_FORMS[(start + 3) % len(OFFSET_FORMS)])
+        r.shuffle(ksks)
+        c["ksks"] = ksks
+        c["extra"] = []
+        c["out"] = ["arg", "config", "stdout"][(start // 3) % 3]
+        c["variant"] = "validity-lattice"
+        out.append(c)
+    # the property's own example: the 2010 root KSK written with +02:00
+    c = gen_case(r, 0)
+    c["ksks"] = [
+        {"name": "k0", "label": "Ka_0", "key": ["rsa", 2048, 65537, 0], "alg": 8, "valid_from": "2010-07-15T00:00:00+02:00", "valid_until": "2019-01-11T00:00:00+02:00", "place": "present", "wrapped": True},
+        {"name": "k1", "label": "Kb_1", "key": ["rsa", 2048, 65537, 1], "alg": 8, "valid_from": "2010-07-14T23:30:00+00:00", "valid_until": None, "place": "present", "wrapped": True},
+        {"name": "k2", "label": "Kc_2", "key": ["ec", "P-256", 0], "alg": 13, "valid_from": "2010-07-14T17:45:00-05:00", "valid_until": None, "place": "present", "wrapped": True},
+    ]
+    c["variant"] = "validity-lattice"
+    out.append(c)
+    return out
+
+
+def naive_validity_cases(r: Any) -> list[dict[str, Any]]:
+    """Validity written without a UTC designator (all entries of a document alike: naive and aware values do not compare)."""
+    lat = dict(tzenv.lattice())
+    out = []
+    for form, labels in (("naive", ["root-ksk-2010", "january-noon", "july-midnight", "Europe/Berlin:switch0+0s"]), ("date", ["root-ksk-2010", "year-start", "july-midnight"])):
+        c = gen_case(r, 0)
+        c["ksks"] = [{"name": f"k{i}", "label": f"K{'abcd'[i]}_{i}", "key": ["rsa", 2048, 65537, i], "alg": 8, "valid_from": stamp(lat[lab], form), "valid_until": None if i % 2 else stamp(lat[lab] + 86400 * 400, form), "place": "present", "wrapped": True} for i, lab in enumerate(labels)]
+        c["extra"] = []
+        c["variant"] = "naive-validity"
+        out.append(c)
+    return out
+
+
+def under_zones(cases: list[dict[str, Any]]) -> list[dict[str, Any]]:
+    """Every case once as it is (the process zone of the run: UTC) and once per non-UTC zone."""
+    out = []
+    for c in cases:
+        out.append(c)
+        for z in lib.non_utc_zones():
+            cz = json.loads(json.dumps(c))
+            cz["tz"] = z[0]
+            out.append(cz)
     return out
 
 
@@ -409,15 +598,27 @@ def rfc_ds(tk: K.TestKey, alg: int, prefixed: bool = False) -> tuple[int, str]:
     from dns.rdtypes.ANY.DNSKEY import DNSKEY
 
     pk = tk.dnskey_public_key() if not (prefixed and tk.kind == "ec") else tk.ec_point(prefix=True)
+    if tk.kind == "rsa" and pk != rfc3110_field(tk.e, tk.n):
+        raise AssertionError("harness: keys.py and the RFC 3110 transcription of corr_C18 build different key fields")
     key = DNSKEY(dns.rdataclass.IN, dns.rdatatype.DNSKEY, 257, 3, alg, pk)
     ds = dns.dnssec.make_ds(dns.name.root, key, "SHA256")
     return ds.key_tag, ds.digest.hex().upper()
 
 
+def parse_instant(text: str) -> datetime:
+    """The configured instant as an aware UTC datetime.  A scalar without designator is read as UTC (the reading the
+    repository documents for its own timestamps: "If the timestamp contains no timezone, UTC is assumed") — never as
+    local time of this process."""
+    dt = datetime.fromisoformat(text)
+    if dt.tzinfo is None:
+        return dt.replace(tzinfo=timezone.utc)
+    return dt.astimezone(timezone.utc)
+
+
 def fmt_dt(text: str | None) -> str | None:
     if text is None:
         return None
-    dt = datetime.fromisoformat(text).astimezone(timezone.utc)
+    dt = parse_instant(text)
     return f"{dt.year:04d}-{dt.month:02d}-{dt.day:02d}T{dt.hour:02d}:{dt.minute:02d}:{dt.second:02d}+00:00"
 
 
@@ -432,7 +633,7 @@ def expected_entries(case: dict[str, Any]) -> tuple[Counter, Counter]:
         tag, dg = rfc_ds(tk, k["alg"])
         ptag, pdg = rfc_ds(tk, k["alg"], prefixed=True)
         # equal records collapse; "equal" is on the configured INSTANTS (microseconds included), the writer shows seconds
-        inst = (datetime.fromisoformat(k["valid_from"]), None if k["valid_until"] is None else datetime.fromisoformat(k["valid_until"]))
+        inst = (parse_instant(k["valid_from"]), None if k["valid_until"] is None else parse_instant(k["valid_until"]))
         vf, vu = fmt_dt(k["valid_from"]), fmt_dt(k["valid_until"])
         want.add((inst, (k["label"], vf, vu, tag, k["alg"], dg)))
         want_prefixed.add((inst, (k["label"], vf, vu, ptag, k["alg"], pdg)))
@@ -472,6 +673,15 @@ def valid_from_key(entry_text: str) -> tuple[int, ...] | None:
 
 
 def run_case(case: dict[str, Any]) -> dict[str, Any]:
+    """`"tz": <zone name>` in the case: the whole run (loading the configuration, the export, reading the document back)
+    happens with the time zone of the process switched to that zone (lib.ProcessTZ)."""
+    if case.get("tz"):
+        with tzenv.zone(ZONES[case["tz"]]):
+            return _run_case(case)
+    return _run_case(case)
+
+
+def _run_case(case: dict[str, Any]) -> dict[str, Any]:
     import kskm.tools.trustanchor as TA
 
     world, cfg, info = build(case)
@@ -584,6 +794,19 @@ def judge(case: dict[str, Any], run: dict[str, Any], res: Result) -> bool:
         bad = True
     got_c = Counter(g[:6] for g in got)
     want, want_prefixed = expected_entries(case)
+    if case["variant"] == "naive-validity":
+        # see JUDGE_NAIVE_VALIDITY: expectation = the scalar read as UTC
+        strip = lambda c: Counter({(e[0], e[3], e[4], e[5]): n for e, n in c.items()})  # noqa: E731
+        if got_c != want and strip(got_c) == strip(want):
+            res.bump(f"boundary:naive-validity:shifted-by-the-process-zone:{case.get('tz') or 'UTC'}")
+            shown = sorted((g[0], g[1], g[2]) for g in got)
+            res.notes.append(f"naive-validity [{case.get('tz') or 'UTC'}]: configured {[(k['label'], k['valid_from'], k['valid_until']) for k in case['ksks']]} exported as {shown}")
+            if JUDGE_NAIVE_VALIDITY:
+                res.violation(WHAT_NAIVE, case, key="naive-validity", got=shown, want=sorted((e[0], e[1], e[2]) for e in want))
+                return True
+            return bad
+        if got_c == want:
+            res.bump(f"boundary:naive-validity:as-configured:{case.get('tz') or 'UTC'}")
     if got_c != want:
         # which keys differ?
         ec_algs = sorted({k["alg"] for k in case["ksks"] if key_of(k["key"]).kind == "ec" and present_on_token(case, k)})
@@ -649,6 +872,11 @@ def compare_model(case: dict[str, Any], run: dict[str, Any], o: dict[str, Any], 
 
 
 def run(tier: str, driver_ok: bool) -> Result:
+    with tzenv.zone(lib.TZ_ZONES[0]):  # whatever zone the check was started in: cases without "tz" run under UTC
+        return _run(tier, driver_ok)
+
+
+def _run(tier: str, driver_ok: bool) -> Result:
     res = Result("C18")
     res.rule = (
         "0..4 configured KSKs x {RSA 1024..4096 with exponents 3/17/65537/65539/2^32+1, P-256, P-384} x placement {present, absent, private only, "
@@ -657,24 +885,52 @@ def run(tier: str, driver_ok: bool) -> Result:
         "in EVERY run the key-tag boundary block: fixtures/special.json carry / revcarry / twins keys (real RSA keys whose RFC 4034 accumulator needs the second-fold carry to be DROPPED, "
         "whose low word is >= 0xFF80, pairs with equal tags) and crafted public-only token keys with fold sum 0x10000-2..+2 (tags 65534, 65535, 0, 1, 2) and low words 0x0000/0xFFFF/0xFF7F/0xFF80 "
         "for 1024..4096-bit moduli, exponents 3/65537/2^32+1, algorithms 5/8/10, as configured KSKs in every exporting placement (counters keytag:*), also mixed into 12 % of the random key picks; "
+        f"in EVERY run the exponent-length block: public-only token keys with odd public exponents of {EXP_LENGTHS} octets (leading octet 0x01/0x80/0xFF/random; 2^(8k)-1 and 2^(8k)+1 for k = 253..256), "
+        "moduli 1024/2048/4096 bits, algorithms 5/8/10, every exporting placement, judged by dnspython over an RFC 3110 field built from the integers (counters exponent-octets:*), also 5 % of the random key picks; "
+        "in EVERY run the environment-independence block: validFrom/validUntil through the DST lattice of harness/tzenv.py written with offsets +00:00/Z/+02:00/-05:00/+05:30/+10:30 (equal and adjacent instants in different notations), "
+        f"the first ordinary cases and a slice of the exponent block, each under the run's zone and with the PROCESS time zone switched to {', '.join(z[0] for z in lib.non_utc_zones())} "
+        "(same oracle, same model, document equal to the UTC run's; counters zone:*, valid_from-notation:*); validity without designator recorded as boundary (naive-validity); "
         "non-trivial = distinct case"
     )
     r = lib.rng("C18")
-    cases = keytag_boundary_cases(lib.rng("C18:keytag-boundary")) + special_cases(r)
+    cases = keytag_boundary_cases(lib.rng("C18:keytag-boundary")) + exponent_length_cases(lib.rng("C18:exponent-length")) + special_cases(r)
     n = 1000 if tier == "quick" else 6000
+    ordinary = []
     for i in range(5):
         for _ in range(n // 5):
-            cases.append(gen_case(r, i if r.random() < 0.5 else None))
+            ordinary.append(gen_case(r, i if r.random() < 0.5 else None))
+    cases += ordinary
+    # environment independence: the validity lattice, the naive-validity boundary and a slice of the blocks above, under UTC and under every other zone
+    rz = lib.rng("C18:tz")
+    slice_ = [c for c in ordinary if c["ksks"]][: 24 if tier == "quick" else 120] + exponent_length_cases(lib.rng("C18:tz:exponent-length"))[:: 9 if tier == "quick" else 3]
+    cases += under_zones(validity_lattice_cases(rz) + naive_validity_cases(rz)) + [c for c in under_zones(slice_) if c.get("tz")]
     runs = []
+    utc_doc: dict[str, Any] = {}
     for case in cases:
         run_ = run_case(case)
         res.count(case)
         res.bump("variant:" + case["variant"])
+        res.bump("zone:" + (case.get("tz") or "UTC (the run's own)"))
+        twin = json.dumps({k: v for k, v in case.items() if k != "tz"}, sort_keys=True)
+        if not case.get("tz"):
+            utc_doc[twin] = (run_["impl"], run_["doc"])
+        elif twin in utc_doc and (run_["impl"], run_["doc"]) != utc_doc[twin]:
+            if case["variant"] == "naive-validity" and not JUDGE_NAIVE_VALIDITY:
+                res.bump("boundary:naive-validity:document-differs-from-utc-run")
+            else:
+                u_impl, u_doc = utc_doc[twin]
+                res.violation(WHAT_TZ, case, key="tz:differs-from-utc", utc={"impl": u_impl}, zone={"impl": run_["impl"]}, first_difference=tzenv.first_difference((u_doc or "").split("\n"), (run_["doc"] or "").split("\n")))
         res.bump(f"configured:{len(case['ksks'])}")
         res.bump("outcome:" + ("ok" if "ok" in run_["impl"] else "error"))
         for k in case["ksks"]:
             res.bump("place:" + k["place"].split(":")[0])
             res.bump("key:" + key_class(k["key"]))
+            eo = exponent_octets(k["key"])
+            if eo is not None:
+                res.bump(f"exponent-octets:{eo}" + (":exported" if present_on_token(case, k) and "ok" in run_["impl"] else ":not-exported"))
+            if case["variant"] in ("validity-lattice", "naive-validity"):
+                m = re.search(r"(Z|[+-]\d\d:\d\d)$", k["valid_from"])
+                res.bump("valid_from-notation:" + (m.group(1) if m else "no-designator"))
             for shape in tag_shape(k["key"], k["alg"]):
                 res.bump("keytag:" + shape + (":exported" if present_on_token(case, k) and "ok" in run_["impl"] else ":not-exported"))
         run_["violated"] = judge(case, run_, res)
@@ -686,7 +942,14 @@ def run(tier: str, driver_ok: bool) -> Result:
         for case, run_, o in zip(cases, runs, outs):
             # F4 is a property of the shared key derivation; the model mirrors the code there, so the model
             # comparison is made for every case, violated or not
+            if case["variant"] == "naive-validity" and case.get("tz") and not JUDGE_NAIVE_VALIDITY:
+                continue  # the model reads a scalar without designator as UTC (lib.dt_us); recorded boundary, see NAIVE_VALIDITY
             compare_model(case, run_, o, res)
+    res.notes.append(
+        "naive-validity: a validity configured without a UTC designator (`valid_from: 2010-07-15T00:00:00` or `2010-07-15`; YAML and pydantic keep such a value naive) is rendered by "
+        "KeyDigest.format_datetime through astimezone(timezone.utc), which reads a naive value as LOCAL time of the process: under UTC the document says what the configuration says, under any other "
+        "process zone validFrom/validUntil are shifted by the zone offset (counters boundary:naive-validity:*). Recorded, judged only with JUDGE_NAIVE_VALIDITY (corr_C18)."
+    )
     res.notes.append("family-mismatch cases: the exporter does not check that the token key fits the configured algorithm family / size / tag / DS (module docstring says it does); outside C18's statement, recorded as boundary")
     return res
 
